@@ -145,6 +145,17 @@ def constant_value(expression, bindings=None):
                 expression.type.which_type
             )
     elif expression.which_expression == "function":
+        if not bindings and expression.function.function in (
+            ir_data.FunctionMapping.UPPER_BOUND,
+            ir_data.FunctionMapping.LOWER_BOUND,
+        ):
+            # The value of $upper_bound(x) is, by definition, the bound that the
+            # bounds computation found for x.  Folding x here instead can give a
+            # different answer: for `(false && a == 0) ? 16 : 8` this module knows
+            # the value (8), while the inferred range is 8..16.
+            value = _constant_value_from_type(expression.type)
+            if value is not None:
+                return value
         value = _constant_value_of_function(expression.function, bindings)
         if value is None and not bindings:
             # Not foldable from the operands alone (`$upper_bound(x) - 253`), but
